@@ -235,6 +235,13 @@ def _worker(args):
     ctx = Ctx(pid)
     try:
         func(ctx, wid, seed_, **kwargs)
+    except Violation as v:
+        # a directed (non-Hypothesis) worker let a Violation of a shared check function escape: that is a property failure, not an infrastructure error
+        try:
+            cj = jsonable(v.case)
+        except Exception:
+            cj = repr(v.case)[:2000]
+        ctx.violations.append(dict(campaign=getattr(func, '__name__', 'worker'), why=v.why, case=cj if isinstance(cj, dict) else dict(case=cj), observed=_no_history(v.observed), expected=v.expected, refails=3))
     except Exception:
         ctx.notes.append('WORKER-ERROR ' + traceback.format_exc())
         e = ctx.export()
